@@ -621,3 +621,32 @@ pub fn varint_bytes(v: u128) -> Vec<u8> {
     spec::varint(v, &mut o);
     o
 }
+
+// ------------------------------------------------------------------ deep nesting ("nested to any depth")
+
+/// A shape nested `depth` levels deep through one kind of wrapper, with a value that
+/// actually goes all the way down.  kinds: 0 option, 1 seq, 2 newtype struct, 3 enum newtype
+/// variant, 4 string-keyed map, 5 one-field struct, 6 mixed.
+pub fn deep_case(kind: usize, depth: usize) -> (Shape, Val) {
+    let mut shape = Shape::U16;
+    let mut val = Val::U16(40000);
+    for level in 0..depth {
+        let k = if kind == 6 { level % 6 } else { kind };
+        let (s, v) = match k {
+            0 => (Shape::Option(Box::new(shape)), Val::Some(Box::new(val))),
+            1 => (Shape::Seq(Box::new(shape)), Val::Seq(vec![val])),
+            2 => (Shape::NewtypeStruct("T0", Box::new(shape)), Val::NewtypeStruct("T0", Box::new(val))),
+            3 => (
+                Shape::Enum("T1", vec![VariantShape { name: "V0", data: VData::Unit }, VariantShape { name: "V1", data: VData::Newtype(Box::new(shape)) }]),
+                Val::NewtypeVariant("T1", 1, "V1", Box::new(val)),
+            ),
+            4 => (Shape::Map(Box::new(Shape::Str), Box::new(shape)), Val::Map(vec![(Val::Str("k".into()), val)])),
+            _ => (Shape::Struct("T2", vec![("f0", Shape::U8), ("f1", shape)]), Val::Struct("T2", vec![("f0", Val::U8(level as u8)), ("f1", val)])),
+        };
+        shape = s;
+        val = v;
+    }
+    (shape, val)
+}
+
+pub const DEEP_DEPTHS: [usize; 4] = [65, 129, 200, 300];
